@@ -19,7 +19,7 @@ ASSUMPTIONS = ['tm_exact (vmon/oracles/tm.py) is the reference; it is re-validat
 N = {'quick': 3000, 'thorough': 40000}     # cases per shard
 SHARDS = {'quick': 16, 'thorough': 32}
 ASPECTS = ('F',)
-REQUIRED_COUNTERS = ['branch:isg-auto-zone', 'branch:isg-central-meridian', 'branch:north-false-northing', 'branch:utm-auto-zone']
+REQUIRED_COUNTERS = ['alias_sequences', 'branch:isg-auto-zone', 'branch:isg-central-meridian', 'branch:north-false-northing', 'branch:utm-auto-zone']
 
 
 def plan(tier, seed):
@@ -44,6 +44,9 @@ def run_shard(spec, ctx):
             if i < 2:
                 ctx.sample(case)
             tmwork.judge_forward(ns, ctx, case, ASPECTS)
+            if rnd.random() < 0.3:
+                tmwork.judge_forward(ns, ctx, tmwork.alias_geo_case(rnd, case), ASPECTS)
+                ctx.count('alias_sequences')
     finally:
         reach.stop()
     ctx.info['lines_reached'] = reach.summary()
